@@ -296,7 +296,11 @@ def respell_rho(text, rng):
 
 COMMENTS = ['c', 'c comment', 'C  A COMMENT with 1 2 3', 'c  imp:n=0 fill=3',
             '  c indented comment', 'c $ & ( ) : #', 'c ---------',
-            'c\ttab after the c', 'C\t', '    c\t1 2 3', 'c \t mixed']
+            'c\ttab after the c', 'C\t', '    c\t1 2 3', 'c \t mixed',
+            # characters that end a "line" for str.splitlines(), not for MCNP
+            'c ---- end of page 1 ----\x0c', 'c kept:\x0c     : -3 #1',
+            'c first\u2028second 1 2 3', 'c a\x85b', 'c vt\x0b     99',
+            'c fs\x1c gs\x1d rs\x1e']
 
 
 def render_card(card, recipe, block):
@@ -328,7 +332,9 @@ def render_card(card, recipe, block):
                 if rng.random() < 0.3:
                     cur += '   '
             if 'dollar' in recipe.on and rng.random() < 0.4:
-                cur += ' $ note ' + rng.choice(['1 2 3', 'px & so', 'u=5'])
+                cur += ' $ note ' + rng.choice(['1 2 3', 'px & so', 'u=5',
+                                                 'see page 3\x0cof the report',
+                                                 'a\u2028b'])
             lines.append(cur)
             if 'ccomment' in recipe.on and rng.random() < 0.3:
                 lines.append(rng.choice(COMMENTS))
